@@ -357,3 +357,15 @@ def field_escapes(prog, owner_adt, field, skip=lambda b: False):
                     out.append(s)
                     break
     return out
+
+
+def failure_results(body):
+    """sites that make the function's result an Err: explicit Err(..) aggregates assigned to the return place and `?` propagation."""
+    return [r for r in ret_assigns(body) if result_variant_of_ret(r) == "Err"]
+
+
+def result_flows_from_variant(body, r, variant):
+    """does the value of the failure result r flow from an aggregate of the given enum variant (e.g. OutOfSync)?"""
+    ops = r.args() if r.is_term else r.node["r"]["ops"]
+    src = frozenset().union(*[body.origins(op, r) for op in ops]) if ops else frozenset()
+    return flows_from(body, src, lambda t: t[0] == "agg" and len(t) > 4 and t[4] == variant)
